@@ -2,6 +2,7 @@ package main
 
 import (
 	"fmt"
+	"go/token"
 	"go/types"
 
 	"golang.org/x/tools/go/ssa"
@@ -114,6 +115,44 @@ func init() {
 	}
 	intrinsicsByName[sdkCoin+"IsPositive"] = func(e *Env, st *State, args []Val, rt types.Type, c *ssa.CallCommon) []Out {
 		return one(st, boolVal(tApp(">", e.term(st, e.coinField(st, args[0], "Amount")), "0")))
+	}
+	intrinsicsByName[sdkInt+"BigInt"] = func(e *Env, st *State, args []Val, rt types.Type, c *ssa.CallCommon) []Out {
+		// a fresh *big.Int holding the same mathematical value (a nil sdk.Int, which yields nil, is not modelled)
+		cell := e.newCell(st, Val{K: kTerm, Typ: mathIntType(), Sort: sInt, T: e.term(st, args[0])})
+		return one(st, Val{K: kPtr, Typ: rt, Ptr: &Pointer{Cell: cell}})
+	}
+	// Coin.Add / Coin.IsEqual panic when the denominations differ (a safety condition); otherwise arithmetic on amounts
+	intrinsicsByName[sdkCoin+"Add"] = func(e *Env, st *State, args []Val, rt types.Type, c *ssa.CallCommon) []Out {
+		da, db := e.term(st, e.coinField(st, args[0], "Denom")), e.term(st, e.coinField(st, args[1], "Denom"))
+		p := token.NoPos
+		if c != nil {
+			p = c.Pos()
+		}
+		e.safety(st, tEq(da, db), "coin-denom-mismatch", p)
+		stt, ok := rt.Underlying().(*types.Struct)
+		if !ok {
+			return e.havocCall(st, "sdk.Coin.Add", args, rt)
+		}
+		v := e.zero(st, rt)
+		sum := tApp("+", e.term(st, e.coinField(st, args[0], "Amount")), e.term(st, e.coinField(st, args[1], "Amount")))
+		for i := 0; i < stt.NumFields(); i++ {
+			switch stt.Field(i).Name() {
+			case "Denom":
+				v = e.setField(st, v, i, e.coinField(st, args[0], "Denom"))
+			case "Amount":
+				v = e.setField(st, v, i, intVal(stt.Field(i).Type(), sum))
+			}
+		}
+		return one(st, v)
+	}
+	intrinsicsByName[sdkCoin+"IsEqual"] = func(e *Env, st *State, args []Val, rt types.Type, c *ssa.CallCommon) []Out {
+		da, db := e.term(st, e.coinField(st, args[0], "Denom")), e.term(st, e.coinField(st, args[1], "Denom"))
+		p := token.NoPos
+		if c != nil {
+			p = c.Pos()
+		}
+		e.safety(st, tEq(da, db), "coin-denom-mismatch", p)
+		return one(st, boolVal(tEq(e.term(st, e.coinField(st, args[0], "Amount")), e.term(st, e.coinField(st, args[1], "Amount")))))
 	}
 	// ---- Coins (through amountOf) ----
 	intrinsicsByName["github.com/cosmos/cosmos-sdk/types.NewCoins"] = func(e *Env, st *State, args []Val, rt types.Type, c *ssa.CallCommon) []Out {
